@@ -3,7 +3,7 @@
 //! note: hand-written TLV suffixes (FundedChannel, ChannelMonitor, the scorer's ChannelLiquidity): a record type that carries the same-named value on both sides carries it on both sides - the writer puts under type N the field the reader takes from type N (a writer that puts another value of the same type under N round-trips in every test whose two values happen to be equal, and silently exchanges or loses state otherwise)
 //! trusted: R21 (TLV tables): from every `write_tlv_fields!` / `encode_tlv_stream!` (writer) and `read_tlv_fields!` / `decode_tlv_stream!` (reader) invocation of a function the extractor takes the records as "TYPE:NAME" (NAME: the record's expression without `self.`, `&`, `*`; the last segment of a plain field path), in source order, restricted to the listed records (`only=`: the records whose value has the same name on both sides on the pinned tree - 34 of 52 for the channel, 20 of 24 for the monitor, 5 of 8 for the scorer; records under another name on one side - `_opt` temporaries, computed values - are outside); the lemmas state that the two lists agree
 //! plemma: C12 lemma_channel_tlv_records_carry_the_same_fields_on_both_sides: FundedChannel write / read (the seventeen records whose value is held in a differently named local on one side - the reader's `.._opt` options, the writer's `chan_type` / `serialized_holder_..` temporaries, `_has_0reserve`, `holding_cell_accountable` - are listed under the field's name by `alias=`)
-//! plemma: C12 lemma_monitor_tlv_records_carry_the_same_fields_on_both_sides: write_chanmon_internal / ChannelMonitor read
+//! plemma: C12 lemma_monitor_tlv_records_carry_the_same_fields_on_both_sides: write_chanmon_internal / ChannelMonitor read (records 25, 39 and 41 under the writer's names by `alias=`: the reader's locals are `payment_preimages_with_info`, `best_block_previous_blocks`, `current_funding_contribution`)
 //! plemma: C12 lemma_scorer_tlv_records_carry_the_same_fields_on_both_sides: ChannelLiquidity write / read
 //! plemma: C12 lemma_claimable_htlc_tlv_records_carry_the_same_fields_on_both_sides: write_claimable_htlc / (ClaimableHTLC, u64)::read: the part's previous hop, sender-intended value, total received, expiry, keysend preimage and skimmed fee travel under the same record type on both sides (the received value and the payment total are read under other names and are not in the table)
 //! plemma: C12 lemma_manager_tlv_records_carry_the_same_fields_on_both_sides: ChannelManager::write / ChannelManagerData::read (16 of 18 records; six of them under names that differ on the two sides - the reader's `pending_intercepted_htlcs_legacy`, `received_network_pubkey`, `claimable_htlc_purposes`, `amountless_claimable_htlc_onion_fields`, `decode_update_add_htlcs_legacy`, `best_block_previous_blocks` and the writer's `decode_update_add_htlcs_opt` are listed under one canonical name each by `alias=`; records 8 and 21 are written from computed expressions and are not in the table)
@@ -32,10 +32,10 @@ pub assume_specification<T: core::cmp::Ord>[core::cmp::min::<T>](a: T, b: T) -> 
 //@end
 pub proof fn lemma_channel_tlv_records_carry_the_same_fields_on_both_sides() ensures channel_tlvs_written() =~= channel_tlvs_read() {}
 //@extract lightning/src/chain/channelmonitor.rs :: fn write_chanmon_internal
-//@fields tlvwrite monitor_tlvs_written only=1:funding_spend_confirmed,3:htlcs_resolved_on_chain,5:pending_monitor_events,7:funding_spend_seen,9:counterparty_node_id,11:confirmed_commitment_tx_counterparty_output,13:spendable_txids_confirmed,15:counterparty_fulfilled_htlcs,17:initial_counterparty_commitment_info,19:channel_id,21:balances_empty_height,23:holder_pays_commitment_tx_fee,27:first_negotiated_funding_txo,29:initial_counterparty_commitment_tx,31:channel_parameters,32:pending_funding,33:htlcs_resolved_to_user,34:alternative_funding_confirmed,35:is_manual_broadcast,37:funding_seen_onchain
+//@fields tlvwrite monitor_tlvs_written only=1:funding_spend_confirmed,3:htlcs_resolved_on_chain,5:pending_monitor_events,7:funding_spend_seen,9:counterparty_node_id,11:confirmed_commitment_tx_counterparty_output,13:spendable_txids_confirmed,15:counterparty_fulfilled_htlcs,17:initial_counterparty_commitment_info,19:channel_id,21:balances_empty_height,23:holder_pays_commitment_tx_fee,27:first_negotiated_funding_txo,29:initial_counterparty_commitment_tx,31:channel_parameters,32:pending_funding,33:htlcs_resolved_to_user,34:alternative_funding_confirmed,35:is_manual_broadcast,37:funding_seen_onchain,25:payment_preimages,39:previous_blocks,41:contribution
 //@end
 //@extract lightning/src/chain/channelmonitor.rs :: impl ReadableArgs for Option :: fn read
-//@fields tlvread monitor_tlvs_read only=1:funding_spend_confirmed,3:htlcs_resolved_on_chain,5:pending_monitor_events,7:funding_spend_seen,9:counterparty_node_id,11:confirmed_commitment_tx_counterparty_output,13:spendable_txids_confirmed,15:counterparty_fulfilled_htlcs,17:initial_counterparty_commitment_info,19:channel_id,21:balances_empty_height,23:holder_pays_commitment_tx_fee,27:first_negotiated_funding_txo,29:initial_counterparty_commitment_tx,31:channel_parameters,32:pending_funding,33:htlcs_resolved_to_user,34:alternative_funding_confirmed,35:is_manual_broadcast,37:funding_seen_onchain
+//@fields tlvread monitor_tlvs_read only=1:funding_spend_confirmed,3:htlcs_resolved_on_chain,5:pending_monitor_events,7:funding_spend_seen,9:counterparty_node_id,11:confirmed_commitment_tx_counterparty_output,13:spendable_txids_confirmed,15:counterparty_fulfilled_htlcs,17:initial_counterparty_commitment_info,19:channel_id,21:balances_empty_height,23:holder_pays_commitment_tx_fee,27:first_negotiated_funding_txo,29:initial_counterparty_commitment_tx,31:channel_parameters,32:pending_funding,33:htlcs_resolved_to_user,34:alternative_funding_confirmed,35:is_manual_broadcast,37:funding_seen_onchain,25:payment_preimages,39:previous_blocks,41:contribution alias=25:payment_preimages_with_info>25:payment_preimages,39:best_block_previous_blocks>39:previous_blocks,41:current_funding_contribution>41:contribution
 //@end
 pub proof fn lemma_monitor_tlv_records_carry_the_same_fields_on_both_sides() ensures monitor_tlvs_written() =~= monitor_tlvs_read() {}
 //@extract lightning/src/routing/scoring.rs :: impl Writeable for ChannelLiquidity :: fn write
